@@ -330,3 +330,16 @@ package execution
 //@   ensures errprop: (exists(j, 0, len(c.args), evalErr(c.args[j], ctx) != nil && forall(i, 0, j, evalErr(c.args[i], ctx) == nil && evalVal(c.args[i], ctx).TypeID == 0))) ==> result1 != nil
 //@   ensures allnull: result1 == nil && (forall(j, 0, len(c.args), evalErr(c.args[j], ctx) == nil && evalVal(c.args[j], ctx).TypeID == 0)) ==> result0.TypeID == 0
 //@   ensures first: result1 == nil && (exists(j, 0, len(c.args), evalVal(c.args[j], ctx).TypeID != 0 && evalErr(c.args[j], ctx) == nil && forall(i, 0, j, evalErr(c.args[i], ctx) == nil && evalVal(c.args[i], ctx).TypeID == 0))) ==> result0.TypeID != 0
+
+// C08/C06: a type assertion lets exactly the values through whose TypeID is one of the asserted ones — unchanged —,
+// fails for every other value (so what follows may rely on the asserted type), and fails when its operand fails.
+//@ func (*TypeAssertion).Evaluate
+//@   loop 1 invariant nomatch: 0 <= $k && $k <= len(c.expectedTypeIDs) && forall(j, 0, $k, evalVal(c.expr, ctx).TypeID != c.expectedTypeIDs[j])
+//@   ensures asserted: result1 == nil ==> exists(j, 0, len(c.expectedTypeIDs), result0.TypeID == c.expectedTypeIDs[j]) && same(result0, evalVal(c.expr, ctx))
+//@   ensures rejected: forall(j, 0, len(c.expectedTypeIDs), evalVal(c.expr, ctx).TypeID != c.expectedTypeIDs[j]) ==> result1 != nil
+//@   ensures errprop: evalErr(c.expr, ctx) != nil ==> result1 != nil
+// C08: object field access yields NULL for a NULL object and the field at the materialized index otherwise.
+//@ func (*ObjectFieldAccess).Evaluate
+//@   ensures null: result1 == nil && evalVal(c.object, ctx).TypeID == 0 ==> result0.TypeID == 0
+//@   ensures field: result1 == nil && evalVal(c.object, ctx).TypeID != 0 ==> same(result0, evalVal(c.object, ctx).Struct[c.fieldIndex])
+//@   ensures errprop: evalErr(c.object, ctx) != nil ==> result1 != nil
